@@ -84,8 +84,71 @@ func bits3(r *kit.Rand, pOne int) string {
 	return string(b)
 }
 
+// genInhibit: the inhibition world (form i): alert A inhibits category x per host, alert B is in category x (or y);
+// A walks in and out of OK (with noRecoveries / stateChangesOnly variants), B is mostly not OK; points interleaved.
+func genInhibit(r *kit.Rand) []string {
+	one := func(allowNoRec bool) string {
+		lv := bits3(r, 70)
+		if lv == "000" {
+			lv = "010"
+		}
+		sco := r.Chance(1, 2)
+		scoDur := 0
+		if sco && r.Chance(1, 2) {
+			scoDur = kit.Pick(r, []int{1, 5})
+		}
+		noRec := allowNoRec && r.Chance(1, 2)
+		hist := kit.Pick(r, []int{-1, 0, 2, 3, 21})
+		return fmt.Sprintf("lv=%s rs=%s sco=%d scodur=%d norec=%d all=0 flap=0 lo=%s hi=%s hist=%d",
+			lv, bits3(r, 30), b2i(sco), scoDur, b2i(noRec), kit.F64(0.25), kit.F64(0.5), hist)
+	}
+	inh := "host"
+	if r.Chance(1, 4) {
+		inh = "host+dc"
+	}
+	catb := "x"
+	if r.Chance(1, 6) {
+		catb = "y"
+	}
+	ops := []string{"cfg form=i " + one(true) + " inh=" + inh + " catb=" + catb, "cfgb " + one(r.Chance(1, 3))}
+	hosts := []string{"a", "b", "c c"}[:1+r.Intn(3)]
+	tm := int64(1_000_000_000_000)
+	curA := map[string]int{}
+	n := 8 + r.Intn(30)
+	for k := 0; k < n; k++ {
+		h := kit.Pick(r, hosts)
+		tm += int64(kit.Pick(r, []int{1, 1, 500, 1000, 2500, 5000}))
+		if r.Chance(2, 5) {
+			// A: toggle between OK and not OK often, sometimes stay, sometimes another non-OK level
+			tgt := 0
+			switch x := r.Intn(10); {
+			case x < 4:
+				if curA[h] == 0 {
+					tgt = 1 + r.Intn(3)
+				}
+			case x < 6:
+				tgt = curA[h]
+			default:
+				tgt = r.Intn(4)
+			}
+			curA[h] = tgt
+			ops = append(ops, fmt.Sprintf("pa %s %d %s", kit.Esc(h), tm, vecFor(r, tgt, 8)))
+		} else {
+			tgt := 1 + r.Intn(3)
+			if r.Chance(1, 4) {
+				tgt = 0
+			}
+			ops = append(ops, fmt.Sprintf("pb %s %d %s", kit.Esc(h), tm, vecFor(r, tgt, 8)))
+		}
+	}
+	return ops
+}
+
 // genCase produces the op lines (without observations) of one generated case.
 func genCase(r *kit.Rand, i int) []string {
+	if i%7 == 3 {
+		return genInhibit(r)
+	}
 	form := "s"
 	if i%3 == 1 {
 		form = "b"
